@@ -1718,6 +1718,11 @@ func (ctx *RequestCtx) TimeoutErrorWithCode(msg string, statusCode int) {
 func (ctx *RequestCtx) TimeoutErrorWithResponse(resp *Response) {
 	respCopy := &Response{}
 	resp.CopyTo(respCopy)
+	if ctx.IsHead() {
+		// The server writes the timeout response from a fresh RequestCtx,
+		// which doesn't know the method of the timed out request.
+		respCopy.SkipBody = true
+	}
 	ctx.timeoutResponse = respCopy
 }
 
